@@ -271,8 +271,15 @@ theorem translated_accounted : dnsLoopsTranslated =
      ("packet.encodeName", "genEncodeName"), ("packet.EncodeDNSQuery", "genEncodeDNSQuery"), ("packet.encode", "genEncode"),
      ("packet.NewDNSEntry", "genNewDNSEntry")] := by decide
 
-/-- … none is refused -/
-theorem untranslated_accounted : dnsLoopsUntranslated = [] := by decide
+/-- … none of layer_dns.go is refused; the byte-level helpers and the Process* handlers of handlers/dns_naming offered to
+    this translator (builder M) are refused, each with its first offending construct in `dnsLoopsUntranslated`
+    ([]string / NameEntry results, string concatenation, `i = i + 2`, the handler receiver): they stay with the
+    correspondence run; ProcessDNS / DNSFind are translated by loops_naming.go (Props/C17HandlerTie) -/
+theorem untranslated_accounted : dnsLoopsUntranslated.map (·.1) =
+    ["dns_naming.encodeNBNSName", "dns_naming.decodeNBNSName", "dns_naming.parseNodeNameArray",
+     "dns_naming.processNBNSNodeStatusResponse", "dns_naming.(*DNSHandler).ProcessNBNS", "dns_naming.(*DNSHandler).ProcessMDNS",
+     "dns_naming.processSSDPNotify", "dns_naming.processSSDPSearchRequest", "dns_naming.processUserAgent",
+     "dns_naming.processSSDPResponse", "dns_naming.(*DNSHandler).ProcessSSDP"] := by decide
 
 /-- the fuel the translator hands to the loops and to the pointer recursion: validated by the ties above (a smaller
     measure would make the generated function `.hang` where the model returns) -/
